@@ -37,7 +37,8 @@ RULE = ("accepted texts of the C01 family; for each, every applicable fault "
         "ends.  A case is judged only if the reference "
         "model confirms the faulted text is rejected while the original is "
         "accepted.  distinct_nontrivial = distinct (fault kind, nesting "
-        "depth of culprit, main/included, error class) signatures.")
+        "depth of culprit, main/included, error class) signatures."
+        " Further modes: the culprit's resource has read and left an earlier %include; files without a terminator after the last line; a scratch directory whose name needs URL quoting.")
 LEVEL_TEXT = ("For every injected fault the real loader's exception is "
               "inspected: lineno must be the culprit's 1-based number in "
               "the resource that contains it and url that resource's URL; "
